@@ -483,8 +483,12 @@ void harness(void) { ghost_reset(); Core* a; Core* b; Impl(a, b); VF_CANARY("end
     # ---- PromiseCore::Drop, ReadyCore ---------------------------------------------------------------------------------------------
     b = find_body(repo, F_PC, r'void\s+Drop\s*\(\s*\)\s*noexcept\s+final', 'PromiseCore::Drop')
     pre = [(r'this->_func\.storage\.~Storage\(\)', 'FUNCTOR_DTOR(self)', 0), (r'this->Store\(\s*StopTag\{\}\s*\)', 'Store(self, RS_Error, TAG_STOP)', 0),
-           (r'this->template\s+SetResult<false>\(\)', 'SetResult(self)', 0)]
+           (r'this->template\s+SetResult<false>\(\)', 'SetResult(self)', 0),
+           # a local Promise owning this core (RAII): its destructor runs at the end of the body - an unfulfilled promise stores StopError and drives the continuation (contract of ~Promise / Promise::Set above)
+           (r'PromiseT\s+(\w+)\s*\{\s*CorePtrT\s*\{\s*NoRefTag\{\}\s*,\s*this\s*\}\s*\}\s*;', r'int vf_local_promise = 1;', 0)]
     c = Rewriter('PromiseCore::Drop', pre=pre).rewrite(b.text)
+    if 'vf_local_promise' in c:
+        c += '\n  if (vf_local_promise) { Store(self, RS_Error, TAG_STOP); Loop(self, SetResult(self)); }   /* ~Promise of the local promise */\n'
     src = COMMON + '''unsigned g_func_dtors;
 void FUNCTOR_DTOR(Core* s) __CPROVER_requires(g_func_dtors == 0) __CPROVER_assigns(g_func_dtors) __CPROVER_ensures(g_func_dtors == 1);
 void Drop(Core* self)
